@@ -14,8 +14,10 @@ import (
 	"github.com/storacha/go-ucanto/core/receipt"
 	"github.com/storacha/go-ucanto/core/receipt/fx"
 	"github.com/storacha/go-ucanto/core/result"
+	"github.com/storacha/go-ucanto/did"
 	"github.com/storacha/go-ucanto/server"
 	"github.com/storacha/go-ucanto/ucan"
+	"github.com/storacha/go-ucanto/validator"
 )
 
 func init() {
@@ -98,17 +100,14 @@ var anyResultSchema = []byte("type Result union {\n | O \"ok\"\n | X \"error\"\n
 
 // buildServer makes a real server for the world; handlers record their calls.
 func (cw *CWorld) buildServer(log *runLog, calls *[]handlerCall, mu *sync.Mutex, perturb func()) (server.ServerView, error) {
-	canIssue, checker, resolveProof, parse, resolveKey, _ := cw.context(log)
+	return cw.buildServerWith(log, cw.methodOptions(log, calls, mu, perturb), false)
+}
+
+// methodOptions: the service methods of the world as server options. The same option values (and so the
+// same `Provide` values) can be mounted on more than one server.
+func (cw *CWorld) methodOptions(log *runLog, calls *[]handlerCall, mu *sync.Mutex, perturb func()) []server.Option {
 	w := cw.A
-	id := cw.P[w.Authority].signer
-	if id == nil {
-		return nil, fmt.Errorf("authority without key")
-	}
-	opts := []server.Option{
-		server.WithCanIssue(canIssue), server.WithRevocationChecker(checker), server.WithProofResolver(resolveProof),
-		server.WithPrincipalParser(parse), server.WithPrincipalResolver(resolveKey),
-		server.WithErrorHandler(func(err server.HandlerExecutionError[any]) {}),
-	}
+	var opts []server.Option
 	for _, svc := range w.Services {
 		svc := svc
 		capParser := cw.capabilityFor(svc.Can, log)
@@ -133,6 +132,28 @@ func (cw *CWorld) buildServer(log *runLog, calls *[]handlerCall, mu *sync.Mutex,
 				return okOut{7}, nil, nil
 			})))
 	}
+	return opts
+}
+
+// buildServerWith makes a real server for the world with the given service methods; `lax` = another
+// deployment of the same methods that lets everybody issue everything and revokes nothing.
+func (cw *CWorld) buildServerWith(log *runLog, methods []server.Option, lax bool) (server.ServerView, error) {
+	canIssue, checker, resolveProof, parse, resolveKey, _ := cw.context(log)
+	w := cw.A
+	id := cw.P[w.Authority].signer
+	if id == nil {
+		return nil, fmt.Errorf("authority without key")
+	}
+	if lax {
+		canIssue = func(c ucan.Capability[any], issuer did.DID) bool { return true }
+		checker = func(auth validator.Authorization[any]) validator.Revoked { return nil }
+	}
+	opts := []server.Option{
+		server.WithCanIssue(canIssue), server.WithRevocationChecker(checker), server.WithProofResolver(resolveProof),
+		server.WithPrincipalParser(parse), server.WithPrincipalResolver(resolveKey),
+		server.WithErrorHandler(func(err server.HandlerExecutionError[any]) {}),
+	}
+	opts = append(opts, methods...)
 	return server.NewServer(id, opts...)
 }
 
@@ -248,9 +269,22 @@ func execServe(args []string) (res Result) {
 	log := &runLog{}
 	var calls []handlerCall
 	var mu sync.Mutex
-	srv, err := cw.buildServer(log, &calls, &mu, nil)
+	methods := cw.methodOptions(log, &calls, &mu, nil)
+	srv, err := cw.buildServerWith(log, methods, false)
 	if err != nil {
 		return Result{Impl: "server-error:" + err.Error()}
+	}
+	// history: the same service methods are also deployed on another, laxer server, which saw the batch first
+	if ph := historyPhase(cw.D[w.Invs[0]].Link().String()); ph == "permissive" {
+		if other, err := cw.buildServerWith(log, methods, true); err == nil {
+			cw.serveBatch(other, &calls)
+			mu.Lock()
+			calls = nil
+			mu.Unlock()
+			log.mu.Lock()
+			log.Checker, log.Derives, log.Resolved = nil, nil, nil
+			log.mu.Unlock()
+		}
 	}
 	// history: the same batch was sent to the same server before, in another environment
 	if ph := historyPhase(cw.D[w.Invs[0]].Link().String()); ph != "" {
